@@ -149,7 +149,16 @@ def _go_out_of_service_on_empty(
     #   to out of service.
     # - report stranded passengers if we're servicing a trip when this happens.
     next_state = OutOfService.build(vehicle_id)
-    return next_state.enter(sim, env)
+    vehicle = sim.vehicles.get(vehicle_id)
+    if vehicle is None:
+        return SimulationStateError(f"vehicle {vehicle_id} not found"), None
+    # leave the current activity first so that it releases what it holds (a vehicle on its way
+    # to a request is unassigned from it). an activity that refuses to be left (a trip with
+    # passengers on board) holds nothing that needs releasing and is left directly.
+    exit_error, exit_sim = vehicle.vehicle_state.exit(next_state, sim, env)
+    if exit_error is not None:
+        return exit_error, None
+    return next_state.enter(exit_sim if exit_sim is not None else sim, env)
 
 
 def move(
